@@ -165,12 +165,15 @@ CHECKS = {
     'C05': dict(
         text='Memo.tla: the abstract state holds only versions (data values, shape, parameters of each leaf, link); Evaluate has no '
              'effect and its required result is a function of the current versions; TLC enumerates every interleaving of evaluations '
-             '(mask, mask under a view, attached subset, statistic, histogram, linked value) and mutations (replace values, refresh '
-             'with same/new shape, move/edit/set leaf parameters incl. inside composites, add/remove link) over six tree shapes, '
-             'attached and free; each runs on long-lived real objects, and for every evaluation fresh, never evaluated objects are '
-             'rebuilt from the abstract versions and compared.',
-        note='Bounded: <= 2+2 (thorough 3+3) evaluations/mutations, 11 leaf kinds assigned round-robin. Two open known findings '
-             '(KF-C05-1 in-place edits after evaluation, KF-C05-2 flood fill after value change). Viewer layer-state caches are not driven.',
+             '(mask, mask under a view, attached subset, statistic, histogram, sampled statistic, linked value, histogram of a viewer '
+             'layer) and mutations (replace values, refresh with same/new shape, move/edit/set leaf parameters incl. inside composites, '
+             'add/replace/remove the link, viewer settings) over six tree shapes, attached and free; a history variable records every '
+             'evaluation WITH the context it was made in, so that "evaluate, change, evaluate" is never merged with "change, evaluate"; '
+             'each runs on long-lived real objects, and for every evaluation fresh, never evaluated objects are rebuilt from the '
+             'abstract versions and compared.',
+        note='Bounded: <= 2 evaluations and <= 2 mutations exhaustively (quick: a third of the histories per run, by the seed), random '
+             'walks up to 4+4 in the thorough tier; 12 leaf kinds (incl. a selection on the other dataset\'s linked attribute) assigned '
+             'round-robin. Two open known findings (KF-C05-1 in-place edits after evaluation, KF-C05-2 flood fill after value change).',
         technique='TLA+ spec + TLC (interleavings) + replay with fresh-rebuild oracle',
         design='7/C05'),
     'C08': dict(
